@@ -4,6 +4,7 @@ import (
 	"bytes"
 	"encoding/json"
 	"fmt"
+	"math/big"
 	"os"
 	"sync"
 
@@ -108,6 +109,12 @@ func execBatch(c *ctx, in ev) []ev {
 				}
 				req := st.Request()
 				switch k {
+				case "1unkF": // the first byte of the key id where the last one belongs (served by nobody, unless the two coincide with a configured id)
+					f := id1[0]
+					if f == id1[31] || f == id2[31] {
+						f = unknown
+					}
+					req = &type1.BasicPrivateTokenRequest{TokenKeyID: f, BlindedReq: req.BlindedReq}
 				case "1unk":
 					req = &type1.BasicPrivateTokenRequest{TokenKeyID: unknown, BlindedReq: req.BlindedReq}
 				case "1bad":
@@ -128,6 +135,9 @@ func execBatch(c *ctx, in ev) []ev {
 					req = &type2.BasicPublicTokenRequest{TokenKeyID: unknown, BlindedReq: req.BlindedReq}
 				case "2bad":
 					req = &type2.BasicPublicTokenRequest{TokenKeyID: req.TokenKeyID, BlindedReq: bytes.Repeat([]byte{0xff}, 256)}
+				case "2tiny": // 2^e mod N: the blind signature is the integer 2
+					m := new(big.Int).Exp(big.NewInt(2), big.NewInt(int64(rsa0.E)), rsa0.N)
+					req = &type2.BasicPublicTokenRequest{TokenKeyID: req.TokenKeyID, BlindedReq: m.FillBytes(make([]byte, 256))}
 				}
 				reqs = append(reqs, req)
 				fins = append(fins, fin{st.FinalizeToken, func(tok tokens.Token) bool { return verifyPSS(&rsa0.PublicKey, tok) == nil }})
@@ -194,7 +204,14 @@ func genBatch(c *ctx, emit func(ev)) {
 	}
 	// longer seeded sequences
 	r := newRand(c.seed, "batch-long")
-	kinds := []string{"1ok", "1unk", "1bad", "2ok", "2unk", "2bad", "1okB", "1okC"}
+	kinds := []string{"1ok", "1unk", "1bad", "2ok", "2unk", "2bad", "1okB", "1okC", "2tiny", "1unkF"}
+	// the two extra kinds in every position of short batches, in the configurations that serve their type
+	for i, rs := range [][]any{{"2tiny"}, {"1ok", "2tiny", "1ok", "2ok"}, {"2tiny", "2ok"}, {"2ok", "2tiny"}, {"1unkF"}, {"1ok", "1unkF", "1ok"}, {"1unkF", "1ok"}} {
+		for _, cfg := range []string{"both", "firstfails", "t1only", "samecollide2"} {
+			emit(ev{"op": "Batch", "bid": 50000 + i, "cfg": cfg, "reqs": rs, "wire": false})
+			emit(ev{"op": "Batch", "bid": 50000 + i, "cfg": cfg, "reqs": rs, "wire": true})
+		}
+	}
 	cfgs := []string{"both", "t1only", "t2only", "firstfails", "none", "crosscollide", "samecollide", "samecollide2", "onlyfails"}
 	for i := 0; i < c.tierInt(20, 200); i++ {
 		n := 5 + r.Intn(8)
